@@ -63,6 +63,11 @@ class Check(PropertyCheck):
                 return L.run_file(exe, list(args), path, env=env, timeout=40)
             finally:
                 os.unlink(path)
+        if mode == "shim":
+            # deterministic read() fragmentation: plan = (seed, max bytes per read)
+            env = dict(env or {})
+            env.update({"LD_PRELOAD": L.build_shim(), "SCHEDC_SHORTREAD": str(plan[0]), "SCHEDC_SHORTREAD_MAX": str(plan[1])})
+            return L.run_piped(exe, list(args), data, frags=None, env=env, timeout=90)
         return L.run_piped(exe, list(args), data, frags=plan, env=env, timeout=60)
 
     def correspond(self):
@@ -74,9 +79,9 @@ class Check(PropertyCheck):
         for ix, (kind, data) in enumerate(cs):
             plans = self.frag_plans(len(data))
             jobs.append((ix, kind, data, "file", None))
-            for p in plans[1:] if len(data) < 70000 or self.tier != "quick" else plans[2:3]:
-                jobs.append((ix, kind, data, "pipe", p))
             jobs.append((ix, kind, data, "pipe", plans[2]))
+            jobs.append((ix, kind, data, "shim", (self.rng.below(1000), 1)))            # one byte per read()
+            jobs.append((ix, kind, data, "shim", (self.rng.below(1000), self.rng.choice([2, 3, 5, 7, 4096, 70000]))))
         self.rng_seeds = [self.rng.below(100000) for _ in jobs]
 
         def one(k):
@@ -95,13 +100,17 @@ class Check(PropertyCheck):
             if len(data) > 140000:
                 lines.append(None)
                 continue
-            fr = plan if (plan and len(data) <= 3000) else ([4096] if plan else None)
+            if mode == "shim":
+                plan_m = [1] if plan[1] == 1 else [1 + (plan[0] * 7 + i * 13) % plan[1] for i in range(64)]
+            else:
+                plan_m = plan
+            fr = plan_m if (plan_m and len(data) <= 3000) else ([4096] if plan_m else None)
             frs = "-" if not fr else ",".join(str(x) for x in (fr * 40)[:4000])
             lines.append("1 1 %d %s %s" % (k, data.hex() or "-", frs))
         inp = "\n".join(l for l in lines if l) + "\n"
         rc2, mo, me = vlib.sh([md], input=inp.encode(), timeout=600)
         mout = iter(mo.splitlines())
-        hist = {"COPY": 0, "DECOMPRESS": 0, "FAIL": 0, "file": 0, "pipe": 0, "sizes_0_3": 0, "block_boundary": 0, "model_skipped": 0}
+        hist = {"COPY": 0, "DECOMPRESS": 0, "FAIL": 0, "file": 0, "pipe": 0, "shim": 0, "sizes_0_3": 0, "block_boundary": 0, "model_skipped": 0}
         nontrivial = set()
         ndis = 0
         if rc2 != 0:
@@ -127,7 +136,7 @@ class Check(PropertyCheck):
                 got = (rc, out)
                 ok = (not to) and got == want and mexit == "0" and mraised == "1"
                 if len(data) > 4:
-                    nontrivial.add((data[:64], len(data), mode, tuple(plan or ())))
+                    nontrivial.add((data[:64], len(data), mode, tuple(plan or ())[:8]))
             elif mkind == "DECOMPRESS":
                 ok = (not to) and ref is not None and (rc, out) == (ref[0], ref[1])
             else:
@@ -175,7 +184,7 @@ class Check(PropertyCheck):
         for n in list(range(0, 9)) + [65536 + d for d in range(-5, 9)] + [131072 + d for d in range(0, 8)]:
             data = L.noise(r, n)
             for rep in range(3):
-                jobs.append((0, "rand", data, "pipe", [r.choice([1, 2, 3, 4, 7, 4096]) for _ in range(30)]))
+                jobs.append((0, "rand", data, "shim", (r.below(1000), r.choice([1, 2, 3, 5, 4096]))))
             jobs.append((0, "rand", data, "file", None))
         seeds = [r.below(100000) for _ in jobs]
 
